@@ -121,7 +121,7 @@ def run_verus(rs_path, extra_args=(), use_cache=True, seed=None, timeout=1800, m
                       'rendered': d.get('rendered', '')})
     res['diagnostics'] = [d for d in diags if d['level'] == 'error']
     res['stderr_tail'] = err[-2000:] if not diags else ''
-    if not timed_out:
+    if not timed_out and res['json'] is not None and (res['json'].get('verified') or 0) > 0:
         with open(cfile + '.tmp', 'w') as fh:
             json.dump(res, fh)
         os.replace(cfile + '.tmp', cfile)
